@@ -86,6 +86,18 @@ CHECKS["C10"] = dict(
     note=NOTE_A, technique="CrossHair-driven exhaustive enumeration of acyclic table sets through expand_decay_modes, oracle = multiset of "
     "paths and path count", design="§2 C10", engine="crosshair")
 
+CHECKS["C12"] = dict(
+    text=LEVEL_TEXT_A + ". Branching fractions are symbolic integers (exact products; z3 nonlinear arithmetic, limited as stated in the "
+         "evidence), leaf multiplicities and metadata are unbounded symbolic integers; structures: all DAG shapes over up to 5 decaying "
+         "particles (quick: a stated subset for 5) plus chains/bushes of 6, three orders of the mapping, every stable subset.",
+    note=NOTE_A, technique="CrossHair symbolic execution of DecayChain.flatten with symbolic branching fractions and multiplicities; z3 "
+    "decides the product / multiset identities on every path", design="§2 C12", engine="crosshair")
+CHECKS["C16"] = dict(
+    text=LEVEL_TEXT_A + ". Values are a finite grid of exact binary fractions because formatting realises floats; 10 080 combinations of line "
+         "counts, tie patterns, print options, scale values and naming." + ENUM,
+    note=NOTE_A, technique="CrossHair-driven exhaustive enumeration of option/value combinations through the real print_decay_modes with "
+    "captured stdout, oracle = ordering/scaling rule of the statement", design="§2 C16", engine="crosshair")
+
 PENDING_REASON = "check not built yet in this session (planned, see DESIGN.md §2); not claimed until its quick command runs clean"
 NA = {
     "C20": "quantifies over process histories, interpreter starts and PYTHONHASHSEED values of code that must run untraced "
